@@ -104,8 +104,15 @@ def padArms (pre : String) (dst : Bytes) (keySize padEnd : Nat) : List String :=
   if padEnd < m ∨ padEnd > dst.length then [pre ++ "-noroom"] else
   let pb := (dst.drop (padEnd - m)).headD 0
   let ps := if keySize > 256 then (dst.drop (padEnd - 1)).headD 0 * 256 + pb else pb
-  if ps + m > padEnd then [pre ++ "-size-gt-end"]
-  else
+  -- the announced size against the padding end, at the carry of the bound check
+  let near :=
+    if ps + 2 = padEnd then [pre ++ "-announced-end-minus-2"]
+    else if ps + 1 = padEnd then [pre ++ "-announced-end-minus-1"]
+    else if ps = padEnd then [pre ++ "-announced-end"]
+    else if ps = padEnd + 1 then [pre ++ "-announced-end-plus-1"]
+    else []
+  if ps + m > padEnd then [pre ++ "-size-gt-end"] ++ near
+  else near ++
     let start := padEnd - ps - m
     let bnd := if ps + m = padEnd then [pre ++ "-size-eq-end"] else []
     bnd ++ (if ((dst.drop start).take (ps + 1)).all (· == pb) then [pre ++ "-ok", cmp3 (pre ++ "-len") ps 1]
